@@ -207,7 +207,7 @@ def cases(tier):
     cs.append(LexCase('white_space/control', ('production', 'white_space'), list(range(0, min(N, 3) + 1)), ' \r\x0b\x00\x1f\x7f\xa0x', ref_white_space, prop='C12'))
     # escaped identifiers may hold any character but white space (non-ASCII, control characters, back-ticks, quotes)
     cs.append(LexCase('preprocessor_text/escaped', ('production-all', 'preprocessor_text'), list(range(0, min(N, 4) + 1)), 'a \\\xe9\x01\n', ref_pp_text, compare=cmp_accept_all, prop='C06'))
-    cs.append(LexCase('preprocessor_text', ('production-all', 'preprocessor_text'), list(range(0, N + 1)), 'a /*"\\\n', ref_pp_text, compare=cmp_accept_all, prop='C06'))
+    cs.append(LexCase('preprocessor_text', ('production-all', 'preprocessor_text'), list(range(0, min(N, 5) + 1)), 'a /*"\\\n', ref_pp_text, compare=cmp_accept_all, prop='C06'))
     return cs
 
 
